@@ -91,7 +91,8 @@ structure State (α : Type) where
 structure Env where
   height : Nat
   mainNet : Bool
-  /-- `config.NETWORK_ID_TEST_NET != NetworkId || height >= 19954185`: the done-tx check is active -/
+  /-- `config.NETWORK_ID_TEST_NET != NetworkId || height >= 19954185`: the condition under which the consensus-vote
+  router performs the done-tx check (every other router performs it always) -/
   doneGate : Bool
   /-- hash of the relay-chain transaction being executed -/
   txHash : Bytes
@@ -126,6 +127,9 @@ structure Result (α : Type) where
 
 def fail {α : Type} (s : State α) (cls : String) : Result α := ⟨.reject cls, s, []⟩
 
+/-- The done-tx check is active: always, except in the consensus-vote router on test net below height 19954185. -/
+def doneActive (env : Env) (router : Nat) : Bool := env.doneGate || router != VOTE_ROUTER
+
 /-- `MakeDepositProposal` of any router: router-specific verification, then `CheckDoneTx` / `PutDoneTx`. -/
 def makeDepositProposal {α ι : Type} (o : Oracles α ι) (router : Nat) (env : Env) (s : State α) (src : Nat) (inp : ι) :
     Except String (Option MakeTxParam × State α) :=
@@ -133,7 +137,7 @@ def makeDepositProposal {α ι : Type} (o : Oracles α ι) (router : Nat) (env :
   | .reject c => .error c
   | .pending aux => .ok (none, { s with aux := aux })
   | .accept p aux =>
-    if env.doneGate then
+    if doneActive env router then
       if (src, p.crossChainID) ∈ s.done then .error "done"
       else .ok (some p, { s with aux := aux, done := (src, p.crossChainID) :: s.done })
     else .ok (some p, { s with aux := aux })
